@@ -110,7 +110,20 @@ def _c06_runs(tier, seed, replay):
         return [["layout", "--seed", S(seed, i), "--n", "14", "--maxops", "12"] for i in range(1, 5)]
     return [["layout", "--seed", S(seed, 10 + i), "--n", "80", "--maxops", "16"] for i in range(12)]
 
+def _c15_runs(tier, seed, replay):
+    if tier == "quick":
+        return [["sched", "--seed", S(seed, i), "--n", "60"] for i in range(1, 9)]
+    return [["sched", "--seed", S(seed, 10 + i), "--n", "700"] for i in range(16)]
+
 PROPS = {
+    "C15": dict(
+        theorems=["HC.C15.mutex_linearizable", "HC.C15.sched_inv", "HC.C15.init_inv", "HC.C15.shape", "HC.C15.shape_covers"],
+        bridge_modules=[], bridging=[],
+        runs=_c15_runs,
+        partial="the theorem is about the lock discipline (acquire - body - release), for every deterministic step function and every schedule; the shape of each SharedCore method is re-extracted from the source on every run. What async-lock and the executor do at run time is outside the model: the run drives the real SharedCore under seeded-random schedules with a preemption at every storage operation.",
+        rule="2-4 tasks x 1-4 calls from {append, append_batch, get, has, info, missing_nodes, create_proof on the writer; verify_and_apply_proof, get, has, info on a replica}, polled by a deterministic single-threaded scheduler (no-op waker) over a backend that returns Pending once per storage operation; the observed results and per-call journal slices in completion order must equal a sequential run in that order (else a Wing-Gong search over all orders consistent with program and real-time order, against the sequential real crate); append outcomes must be distinct; the same lines are replayed by the Lean model. distinct = distinct (programs, schedule) pairs",
+        trusted=LOG_TRUSTED + ["async-lock (fair async mutex) and the futures executor are exercised, not modelled"],
+    ),
     "C06": dict(
         theorems=["HC.C06.frame", "HC.C06.header_round_trip", "HC.C06.entry_round_trip", "HC.C06.entries_read_back",
                   "HC.C06.read_write", "HC.C06.bitfield_exact"],
